@@ -35,6 +35,14 @@ def check_note(ctx, case):
     r = ctx.ok("transpose", n.transpose, sh, up)
     if failed(r):
         return
+    # keyword form / default direction denote the same operation
+    nk = Note(name, octave)
+    ctx.ok("transpose", lambda: nk.transpose(sh, up=up))
+    ctx.check((nk.name, nk.octave) == (n.name, n.octave), "note/keyword-form", lambda: "%r: up=%r gives %s-%d, positional %s-%d" % (case, up, nk.name, nk.octave, n.name, n.octave))
+    if up:
+        nd = Note(name, octave)
+        ctx.ok("transpose", nd.transpose, sh)
+        ctx.check((nd.name, nd.octave) == (n.name, n.octave), "note/default-direction", repr(case))
     p0 = T.pitch(name, octave)
     exp_p = p0 + size if up else p0 - size
     exp_letter = T.letter_up(name[0], (deg - 1) if up else -(deg - 1))
